@@ -98,7 +98,13 @@ func (m *MMap) Size() (int64, error) {
 }
 
 func (m *MMap) ResetFileSize() error {
-	return m.file.Truncate(m.virtualSize)
+	if err := m.file.Truncate(m.virtualSize); err != nil {
+		return err
+	}
+	// 文件已被截断至真实大小, 现有映射区域超出文件末尾的部分不可再访问
+	// 重置右边界, 使下一次读写重新扩展文件并建立映射
+	m.endOff = 0
+	return nil
 }
 
 // 如果有必要, 扩展映射区域
